@@ -105,6 +105,7 @@ fn main() {
         "C10" => checks::c10::run(&ctx),
         "C11" => checks::c11::run(&ctx),
         "C12" => checks::c12::run(&ctx),
+        "C13" => checks::c13::run(&ctx),
         _ => {
             eprintln!("unknown property {prop}");
             2
